@@ -203,6 +203,8 @@ def qualify_init(name, case, r):
     feats = set(case.get('features', []))
     if name == 'InitReadable':
         msg = (r.get('error') or '')
-        slug = 'cannot-match-job' if 'cannot match job' in msg else 'cannot-match-activities' if 'cannot match activities' in msg else common.digest(msg)[:6]
+        slug = ('cannot-match-job' if 'cannot match job' in msg else 'cannot-match-activities' if 'cannot match activities' in msg
+                else 'double-assignment-of-identical-reloads' if 'potential double assignment' in msg and 'reload' in msg
+                else 'cannot-match-break' if "cannot match 'break'" in msg else common.digest(msg)[:6])
         return slug
     return 'general'
